@@ -111,11 +111,19 @@ def execute(plan):
                 da = copies[a["copy"]]["imagery"][prod.groups[name]]["data"]
                 good = []
                 for sel in a["selections"]:
-                    try:
-                        ref = select.apply(da, sel).load().values
-                        good.append((sel, np.array(ref, copy=True)))
-                    except Exception:  # noqa: BLE001
+                    # the single-threaded load also runs as a (lone) actor, so that a lock the
+                    # load path takes twice shows up as a deadlock instead of hanging the harness
+                    solo = Sched(script=[], max_steps=5000)
+                    solo.spawn("S", lambda da=da, sel=sel: select.apply(da, sel).load().values)
+                    solo.run(wall_timeout=120)
+                    if solo.deadlock or solo.budget:
+                        violations.append(Violation(ID, "deadlock", "single-load", {
+                            "selection": sel, "scenario": aset["scenario"],
+                            "blocked": sorted(solo.blocked)}))
+                    elif "S" in solo.err:
                         bump("selection-rejected-sequentially")
+                    else:
+                        good.append((sel, np.array(solo.res["S"], copy=True)))
                 if good:
                     jobs.append((da, good))
             if len(jobs) < 2:
